@@ -106,7 +106,7 @@ def run(res, tier, seed):
                            "MC_Gen": 'HostileParams({"in", "sib", "sib-noglue", "out", "lame", "self"}, MModes, {"a", "cname-sib", "loop2", "loop3", "none"}) '
                                      '\\cup FilterParams({"in", "sib", "out", "lame"}, {"in", "sib-noglue"}, {"a", "cname-in", "cname-out"}) '
                                      '\\cup V6Params \\cup TreeParams(TreeModes)'}, [])
-    cfg = write_cfg(wd, "G_rec", spec="Spec", params=params, ns=10, rec=8, cn=64, rule="required", tail="INVARIANT Emit")
+    cfg = write_cfg(wd, "G_rec", spec="Spec", params=params, ns=24, rec=24, cn=64, rule="required", tail="INVARIANT Emit")
     cases, st = vlib.gen(tla, cfg, wd, workers=W, timeout=2400)
     res.states += st["distinct"]
     res.transitions += st["generated"]
